@@ -63,6 +63,8 @@ def add_content(g, kind, j=0, dest=DEST):
         return g.reveal()
     if kind == 'origination':
         return g.origination(script=SCRIPT, balance=j)
+    if kind == 'smart_rollup_add_messages':
+        return g.smart_rollup_add_messages(message=[bytes([1, j]), b''])
     if kind == 'origination_big':
         return g.origination(script=SCRIPT_BIG, balance=j)
     raise ValueError(kind)
@@ -72,7 +74,7 @@ class Session:
     """One client call history.  Groups are numbered like in OpClient.tla (built and filled objects in creation
     order); contexts are numbered in creation order."""
 
-    KINDS = ('transaction', 'delegation', 'transaction', 'reveal')
+    KINDS = ('transaction', 'delegation', 'smart_rollup_add_messages', 'transaction', 'reveal')
 
     def __init__(self, key, chain0=10, mempool_key='applied', root_ctx=(), kinds=None):
         self.key = key
